@@ -37,6 +37,21 @@ func String(r *core.Rand, maxRunes int) string {
 	if maxRunes >= 4 && r.Chance(1, 60) {
 		n = boundaryLens[r.Intn(len(boundaryLens))]
 	}
+	if maxRunes >= 4 && r.Chance(1, 50) {
+		// an ASCII head of 5..40 bytes with a decomposed (non-NFC) sequence somewhere in the last few bytes: a
+		// word-at-a-time "is it plain ASCII?" pre-check that mishandles the tail, or that samples the head only,
+		// lets exactly such a string through un-normalised
+		head := make([]byte, 5+r.Intn(36))
+		for i := range head {
+			head[i] = byte('a' + r.Intn(26))
+		}
+		tails := []string{"o\u0308", "e\u0301", "A\u030a", "\u1100\u1161", "\u212b", "s\u0323\u0307", "=\u0338"}
+		t := tails[r.Intn(len(tails))]
+		if r.Bool() {
+			t += string(rune('a' + r.Intn(26)))
+		}
+		return string(head) + t
+	}
 	rs := make([]rune, n)
 	asciiOnly := r.Chance(1, 3)
 	for i := range rs {
